@@ -128,6 +128,16 @@ TRIGGERS = {
  "Y-C07": ("C07", "PrefixedStorage (mutable view only) swaps inverted bounds of a descending range: range(Some(hi), Some(lo), Descending) returns [lo, hi) instead of nothing"),
  "Y-C08": ("C08", "StorageTransaction::set logs a write only if the layer below does not already hold that value: a key changed and later set back to the value below reads back right during the call but commits the overwritten value"),
  "Y-C09": ("C09", "WasmKeeper::send skips the transfer of attached funds when sender == recipient: a contract calling itself with funds it does not own / all-zero funds is no longer refused (T-C05's site, written against C09)"),
+ "Y-C11": ("C11", "the Instantiate2 arm passes None as admin: every salted contract is recorded without the admin that was supplied (needs cosmwasm_1_2)"),
+ "Y-C12": ("C12", "Migrate skips the admin check when the sender is the contract being migrated: a contract that is not its own admin can migrate itself"),
+ "Y-C13": ("C13", "customize_response (lifting of Empty-typed entry points) no longer carries over the response's events: malformed custom events of lifted contracts are not seen by verify_response, well-formed ones never surface"),
+ "Y-C14": ("C14", "slash rebuilds the unbonding queue with the slashed validator's entries FIRST: an earlier-maturing unbonding of another validator is stuck behind them and paid late"),
+ "Y-C15": ("C15", "update_rewards credits stakers only when the validator's accrual since the last settlement is at least one token, but still advances the settlement time: frequent settlements lose the rewards of each short interval"),
+ "Y-C16": ("C16", "Undelegate merges a new unbonding into the last queue entry of the same delegator and payout time, forgetting the validator: slashing one validator scales / spares the other's merged tokens"),
+ "Y-C17": ("C17", "ContractWrapper::reply returns Ok(default) when the contract has no reply entry point: a failing module under reply_on Error/Always is reported as handled by a handler that does not exist"),
+ "Y-C18": ("C18", "addr_make hashes input.trim(): names differing only by surrounding white space give the same address"),
+ "Y-C19": ("C19", "a wasmd-style nesting limit for smart queries keeps its depth in a thread-local and leaks one level whenever the address text fails validation: after ten such queries on a thread every App's smart queries fail"),
+ "Y-C20": ("C20", "customize_response sets data with unwrap_or_default (W-C04 again, written against C20): entry points supplied through the *_empty steps return Some(empty) where the supplied function returned no data"),
  "Y-C10": ("C10", "StorageTransaction::set returns early when the backing store already holds the value (T-C06 / U-C01 again, written against C10)"),
  "X-C20": ("C20", "AppBuilder::with_block copies chain_id only when it is non-empty: a supplied block with an empty chain id keeps the default one"),
  "W-C20": ("C20", "ContractWrapper::with_migrate_empty rebuilds the wrapper with reply_fn: None: a reply handler supplied before with_migrate_empty is lost"),
